@@ -9,7 +9,7 @@ Mirrors (gluon @ /repo):
 * `FindVisitor::{visit_one, visit_any, visit_pattern, visit_expr}` (completion/src/lib.rs:338-726)
   on the fragment { Ident/Literal, empty Array/Tuple/Block, App/IfElse/Array/Tuple/Block (all go
   through `visit_one`), Match, Infix, LetBindings without type annotation, Projection, Record
-  with value fields, Lambda, Error } and patterns { Ident/Literal/Error, Tuple, Constructor, As };
+  with value fields, Lambda, Annotated, Error } and patterns { Ident/Literal/Error, Tuple, Constructor, As };
 * the calls of the `OnFound` hooks (`on_ident`, `on_pattern`, lib.rs:143-204) made on the way, i.e.
   which binders are put on the suggestion stack (`Suggest.stack`), and the part of
   `SuggestionQuery::suggest` (lib.rs:1300-1460) that turns the stack into suggestions when
@@ -17,7 +17,7 @@ Mirrors (gluon @ /repo):
 
 Not modelled (the harness keeps such programs out of the correspondence and counts them):
 macro-expanded nodes (`VisitUnExpanded`), type bindings, type annotations (`visit_ast_type`),
-record patterns, `do`, `Annotated` (an `unimplemented!()` at lib.rs:723).
+record patterns, `do`.
 
 The descent picks an arbitrary list element, so the visitor is written with explicit fuel
 (`Out.fuel` = fuel exhausted; the driver passes the node count, and no theorem depends on it).
@@ -98,6 +98,8 @@ inductive Expr where
   | letb (sp : Span) (isRec : Bool) (binds : List LBind) (body : Expr)
   | matchE (sp : Span) (scrut : Expr) (alts : List Alt)
   | record (sp : Span) (fields : List Field) (base : Option Expr)
+  /-- `Expr::Annotated` (inserted by the checker, same span as the wrapped expression) -/
+  | annotated (sp : Span) (e : Expr)
   | error (sp : Span)
 inductive LBind where
   | mk (name : Pat) (args : List Arg) (expr : Expr)
@@ -125,6 +127,7 @@ def Expr.span : Expr → Span
   | .letb sp _ _ _ => sp
   | .matchE sp _ _ => sp
   | .record sp _ _ => sp
+  | .annotated sp _ => sp
   | .error sp => sp
 
 /-- lib.rs:155 `Suggest::on_pattern`: the binders put on the stack, in order. -/
@@ -190,7 +193,7 @@ structure St where
 
 inductive Out where
   | ok (st : St)
-  /-- an `unwrap()` on `None` (lib.rs:343, :493, :541, :553) -/
+  /-- an `unwrap()` on `None` (lib.rs:343, :546, :558) -/
   | panic
   | fuel
   deriving Repr
@@ -246,10 +249,12 @@ def visitPat (pos : Nat) : Nat → Pat → St → Out
       else match (selectSpanned Pat.span pos args).2 with
         | some q => visitPat pos fuel q st
         | none => .ok (setFound st .empty)
-    | .tuple _ elems =>
+    | .tuple sp elems =>
+      -- lib.rs:491-503 (since fix 53580fe the unit pattern `()` is treated like a leaf; before,
+      -- `field.unwrap()` panicked here)
       match (selectSpanned Pat.span pos elems).2 with
       | some q => visitPat pos fuel q st
-      | none => .panic
+      | none => .ok (foundIfAt ⟨.pattern, sp, .plain⟩ pos st)
     | .leaf sp _ => .ok (foundIfAt ⟨.pattern, sp, .plain⟩ pos st)
 
 /-- lib.rs:346 `visit_any` after the selection. -/
@@ -322,6 +327,9 @@ def visitExpr (pos : Nat) : Nat → Expr → St → Out
       match selectSpanned Arg.sp pos args with
       | (false, some a) => .ok (setFound st (.found ⟨.ident, a.sp, .plain⟩))
       | _ => visitExpr pos fuel body st
+    | .annotated _ e =>
+      -- lib.rs:733 (since fix 97c12b9; before: `unimplemented!()`)
+      visitExpr pos fuel e st
     | .error _ => .ok st
 end
 
@@ -363,23 +371,11 @@ def suggest (st : St) : Sugg :=
         else if last.tag = .proj then .skip
         else all
 
-/-! ### Shapes the AST constructors guarantee — and the one they do not -/
-
-/-- No `Pattern::Tuple` with an empty element list (the unit pattern `()`) in `p`. -/
-def Pat.noUnit : Pat → Bool
-  | .leaf _ _ => true
-  | .tuple _ ps => !ps.isEmpty && noUnitList ps
-  | .ctor _ _ ps => noUnitList ps
-  | .as_ _ _ p => p.noUnit
-where
-  noUnitList : List Pat → Bool
-    | [] => true
-    | p :: ps => p.noUnit && noUnitList ps
+/-! ### The shape the AST constructors guarantee -/
 
 mutual
-/-- Every `visit_one` node has a child (true of every AST: `App` has `func`, `IfElse` three
-    children, `Array`/`Tuple`/`Block` are guarded by `is_empty()`, lib.rs:652/698) and no
-    pattern contains the unit pattern (NOT guaranteed by the parser: grammar.lalrpop:582-587). -/
+/-- Every `visit_one` node has a child — true of every AST: `App` has `func`, `IfElse` three
+    children, `Array`/`Tuple`/`Block` are guarded by `is_empty()` (lib.rs:652/698). -/
 def Expr.ok : Expr → Bool
   | .leaf _ => true
   | .emptyNode _ => true
@@ -387,6 +383,7 @@ def Expr.ok : Expr → Bool
   | .one _ cs => !cs.isEmpty && okList cs
   | .infix _ l _ r => l.ok && r.ok
   | .proj _ e => e.ok
+  | .annotated _ e => e.ok
   | .lambda _ _ b => b.ok
   | .letb _ _ bs b => okBinds bs && b.ok
   | .matchE _ s alts => s.ok && okAlts alts
@@ -396,10 +393,10 @@ def okList : List Expr → Bool
   | e :: es => e.ok && okList es
 def okBinds : List LBind → Bool
   | [] => true
-  | .mk n _ e :: bs => n.noUnit && e.ok && okBinds bs
+  | .mk _ _ e :: bs => e.ok && okBinds bs
 def okAlts : List Alt → Bool
   | [] => true
-  | .mk p e :: as => p.noUnit && e.ok && okAlts as
+  | .mk _ e :: as => e.ok && okAlts as
 def okFields : List Field → Bool
   | [] => true
   | .mk _ none :: fs => okFields fs
